@@ -1,4 +1,4 @@
-\* table mutators + migrations, no plans: 382,212 distinct / 43.5M generated, ~75 s with 4 workers
+\* table mutators + <= 2 concurrent migrations over 3 and 4 hash slots, plans on the 3-hash-slot tables: 382,212 distinct / 45.6M generated (~1.5 min on an idle machine)
 SPECIFICATION Spec
 CONSTANTS
   Hs = {3, 4}
@@ -6,7 +6,7 @@ CONSTANTS
   Ss = {3}
   Phases = {0, 1, 2}
   MaxMig = 2
-  PlanH = 0
+  PlanH = 3
 VIEW View
 INVARIANTS TypeOK PlanExists
 PROPERTIES C20_VersionStrict C20_DvExact C20_CodecIdentity C20_PlanMovesOnce C20_PlanBounds C20_PlanSubject C20_PlanLiteral C20_ApplyMovesExactly C20_ApplySubject C20_ApplyLiteral C20_ApplySlotSet
